@@ -515,6 +515,9 @@ class Scen:
             if built is None: continue
             fn, kw, meta = built
             if s.sticky: meta['sticky'] = True
+            # the caller's output variable may still hold the handle of a live object (PKCS#11 does not ask the application to clear it): half of the creating calls start that way
+            if fn in ('C_CreateObject', 'C_CopyObject', 'C_GenerateKey', 'C_GenerateKeyPair', 'C_UnwrapKey', 'C_DeriveKey') and before[0]['objs'] and (i % 2 == 0):
+                hs_live = sorted({h for (_, h) in before[0]['objs']}); kw = dict(kw, preset=s.rnd.choice(hs_live), preset2=s.rnd.choice(hs_live)); meta['preset'] = True; part.count('creating_calls_with_live_handle_in_output_variable')
             s.x.call('fs', mode='count', root=s.root)
             r = s.c(fn, **kw)
             fsn = s.x.call('fs', mode='status')['nops']; s.x.call('fs', mode='off')
